@@ -236,6 +236,20 @@ def run(ctx):
         ctx.guarded(lambda c, _: witness_k19(c), {'witness': 'K19'})
         ctx.guarded(lambda c, _: witness_negzero(c), {'witness': 'K19-int-negative-zero'})
         lit = lambda t: ['lit', t]   # noqa
+        # size grid: rules with n wildcards (all anonymous / all named / alternating), n = 1..14
+        for n in range(1, 15):
+            for mode in ('anon', 'named', 'mixed'):
+                segs, vals = [lit('/')], []
+                for i in range(n):
+                    anon = mode == 'anon' or (mode == 'mixed' and i % 2 == 0)
+                    f = ['int', 'float', 're'][i % 3]
+                    segs.append(['w', None if anon else 'p%d' % i, f, '[a-c]+' if f == 're' else None])
+                    segs.append(lit('/' if i % 2 else '-x/'))
+                    vals.append({'int': str(100 + i), 'float': '%d.5' % i, 're': 'abc'[: 1 + i % 3]}[f])
+                ast = R._fix(segs[:-1])         # (a rule ending in '/' can never match: paths are stripped of trailing slashes)
+                path = ''.join(s[1] if s[0] == 'lit' else vals.pop(0) for s in R.merge(ast))
+                ctx.guarded(check_case, {'ast': ast, 'choice': [n], 'spell': n % 2, 'path': path})
+        ctx.count('wildcard_count_grid')
         for ast, paths in (([lit('/left-'), ['w', 'x', 'float', None]], ['/left-2.5', '/left-7']),
                            ([lit('/p/'), ['w', 'p', 'path', None], lit('/end/'), ['w', None, 'int', None]], ['/p/a/b/end/12', '/p/x/end/7']),
                            ([lit('/'), ['w', 'a', None, None], lit('/'), ['w', 'b', 're', '[a-c]+'], lit('.html')], ['/tom/abc.html', '/é/a.html'])):
